@@ -147,6 +147,11 @@ package ttlv
 // ---------------------------------------------------------------------------
 // binary writer: post-conditions give the exact bytes appended (wire format of KMIP 9.1)
 
+//@ func (*ttlvWriter).Clear
+//@   requires enc != nil
+//@   ensures len(enc.buf) == 0 && samearr(enc.buf, old(enc.buf)) && off(enc.buf) == old(off(enc.buf))
+//@   modifies enc.buf
+
 //@ func (*ttlvWriter).pad
 //@   requires enc != nil && 0 <= n
 //@   ensures is_cat(enc.buf, old(enc.buf), rep(v, n))
